@@ -46,7 +46,7 @@ pub fn cont_array2() {
         Node::Seq(s, len) => { if len != 2 { ex.log.push(report(K_BADLEN, p, (len as u32 & 15) | (2 << 4), 0)); } else { let mut v = [0u64; MAXF]; if leaves_spec(s, len, p, &mut ex, &mut v) { ex.view = v; } } }
         other => { ex.log.push(kind_report(p, other, 64, 1)); }
     }
-    match &r { Ok(v) => { oblige!(ex.log.n != 0 || eq_slots(&v.slots(), &ex.view), "C06:element_i_comes_from_payload_element_i"); }
+    match &r { Ok(v) => { oblige!(matches!(n, Node::Seq(_, 2)), "C06:ok_only_for_a_sequence_of_exactly_the_arity"); oblige!(ex.log.n != 0 || eq_slots(&v.slots(), &ex.view), "C06:element_i_comes_from_payload_element_i"); }
                Err(e) => { oblige!(ex.log.n == 0 || ex.log.ev[0].kind() != K_BADLEN || (e.n >= 1 && e.ev[0].unstopped() == ex.log.ev[0]), "C06:wrong_arity_reports_the_whole_sequence_and_the_expected_length"); } }
     judge_nocover(r, &ex, &p);
 }
@@ -75,7 +75,7 @@ pub fn cont_tuple2() {
     let o = ValuePointerRef::Origin; let l = o.push_index(1); let p = Path::ROOT.idx(1);
     let r = <(Leaf, Option<Leaf>) as Deserr<Rec>>::deserialize_from_value::<KV>(to_value(n), l);
     let mut ex = Expect::EMPTY; tuple_spec(n, 2, p, &mut ex);
-    match &r { Ok(v) => { oblige!(ex.log.n != 0 || eq_slots(&v.slots(), &ex.view), "C06:element_i_comes_from_payload_element_i"); } _ => {} }
+    match &r { Ok(v) => { oblige!(matches!(n, Node::Seq(_, 2)), "C06:ok_only_for_a_sequence_of_exactly_the_arity"); oblige!(ex.log.n != 0 || eq_slots(&v.slots(), &ex.view), "C06:element_i_comes_from_payload_element_i"); } _ => {} }
     judge_nocover(r, &ex, &p);
 }
 pub fn cont_tuple3() {
@@ -84,7 +84,7 @@ pub fn cont_tuple3() {
     let o = ValuePointerRef::Origin; let l = o.push_index(1); let p = Path::ROOT.idx(1);
     let r = <(Leaf, Option<Leaf>, Leaf) as Deserr<Rec>>::deserialize_from_value::<KV>(to_value(n), l);
     let mut ex = Expect::EMPTY; tuple_spec(n, 3, p, &mut ex);
-    match &r { Ok(v) => { oblige!(ex.log.n != 0 || eq_slots(&v.slots(), &ex.view), "C06:element_i_comes_from_payload_element_i"); } _ => {} }
+    match &r { Ok(v) => { oblige!(matches!(n, Node::Seq(_, 3)), "C06:ok_only_for_a_sequence_of_exactly_the_arity"); oblige!(ex.log.n != 0 || eq_slots(&v.slots(), &ex.view), "C06:element_i_comes_from_payload_element_i"); } _ => {} }
     judge_nocover(r, &ex, &p);
 }
 impl Viewed for Option<Box<Leaf>> { fn slots(&self) -> [u64; MAXF] { [match self { Some(b) => lv(b), None => 0 }, 0, 0, 0, 0, 0] } }
@@ -171,7 +171,95 @@ pub fn order_maps_3() {
     }
 }
 
+
+// ---- comma-separated lists (src/serde_cs.rs): bounded companion of the Verus unit `cs` (native execution only) -------------
+#[cfg(not(kani))]
+pub fn cont_cs() {
+    use serde_cs::vec::CS;
+    use std::str::FromStr;
+    const POOL: [&str; 8] = ["", "1", "1,2", "1,x", ",", "300", "7,8,9", " 1"];
+    pub static D_CS: [&str; 1] = ["k"];
+    reset_all(&D_CS);
+    let o = ValuePointerRef::Origin; let l = o.push_index(1); let p = Path::ROOT.idx(1);
+    let which = nd::below(10);
+    let mut ex = Expect::EMPTY;
+    let r: Result<CS<u8>, Rec> = if which < 8 {
+        let s = POOL[which as usize];
+        if CS::<u8>::from_str(s).is_err() { ex.log.push(report(K_UNEXPECTED, p, 0, 0)); }
+        let r = <CS<u8> as Deserr<Rec>>::deserialize_from_value::<serde_json::Value>(deserr::Value::String(s.to_string()), l);
+        if let (Ok(got), Ok(want)) = (&r, CS::<u8>::from_str(s)) { oblige!(got.0 == want.0, "C06:cs_list_is_what_from_str_yields"); }
+        r
+    } else {
+        let n = if which == 8 { Node::Int(3) } else { Node::Seq(0, 0) };
+        ex.log.push(kind_report(p, n, 32, 1));
+        <CS<u8> as Deserr<Rec>>::deserialize_from_value::<KV>(to_value(n), l)
+    };
+    match &r {
+        Ok(_) => { oblige!(ex.log.n == 0, "C01,C06:cs_ok_exactly_when_from_str_accepts"); oblige!(rec::calls() == 0, "C01:ok_only_if_nothing_reported"); }
+        Err(e) => { oblige!(ex.log.n == 1 && e.n == 1 && rec::calls() == 1 && e.ev[0].unstopped() == ex.log.ev[0], "C01,C04,C06:cs_exactly_one_report_at_the_given_location"); }
+    }
+}
+#[cfg(kani)]
+pub fn cont_cs() {}
+
+
+// ---- serde_json::Value as a *target* (src/serde_json.rs): bounded companion of the Verus unit `json_target` (native only) ----
+/// keep-going run of `Deserr for serde_json::Value` over an arena payload: the only fault is a float JSON cannot hold
+#[cfg(not(kani))]
+fn jv_spec(n: Node, p: Path, ex: &mut Expect) -> Option<serde_json::Value> {
+    use serde_json::Value as J;
+    match n {
+        Node::Null => Some(J::Null), Node::Bool(b) => Some(J::Bool(b)), Node::Int(x) => Some(J::from(x)), Node::Neg(x) => Some(J::from(x)),
+        Node::Float(f) => match serde_json::Number::from_f64(f) { Some(nn) => Some(J::Number(nn)), None => { ex.log.push(report(K_UNEXPECTED, p, 0, 0)); None } },
+        Node::Str(k) => Some(J::String(arena::key_string(k))),
+        Node::Seq(s, l) => {
+            let mut out = Vec::new(); let mut ok = true; let mut i = 0u8;
+            while i < l { let before = ex.log.n; match jv_spec(arena::node(s + i), p.idx(i as usize), ex) { Some(v) => out.push(v), None => { ok = false; } } if ex.log.n != before { ex.log.push(handover(p.idx(i as usize))); } i += 1; }
+            if ok { Some(J::Array(out)) } else { None }
+        }
+        Node::Map(s, l) => {
+            let mut out = serde_json::Map::new(); let mut ok = true; let mut i = 0u8;
+            while i < l { let k = arena::key(s + i); let before = ex.log.n; match jv_spec(arena::node(s + i), p.key(k), ex) { Some(v) => { out.insert(arena::key_string(k), v); } None => { ok = false; } } if ex.log.n != before { ex.log.push(handover(p.key(k))); } i += 1; }
+            if ok { Some(J::Object(out)) } else { None }
+        }
+    }
+}
+#[cfg(not(kani))]
+pub fn cont_jvalue() {
+    pub static D_JV: [&str; 3] = ["k", "l", "m"];
+    reset_all(&D_JV);
+    fn leaf() -> Node { match nd::below(5) { 0 => Node::Int(7), 1 => Node::Float(f64::NAN), 2 => Node::Float(1.5), 3 => Node::Null, _ => Node::Float(f64::INFINITY) } }
+    // root: a sequence or a map of two members, each a leaf or a nested one-element sequence / map
+    let mut i = 0u8;
+    while i < 2 {
+        let inner = 4 + i;
+        put(inner, leaf());
+        unsafe { arena::KEYS[inner as usize] = 2; }
+        let n = match nd::below(3) { 0 => leaf(), 1 => Node::Seq(inner, 1), _ => Node::Map(inner, 1) };
+        put_entry(i, i, n);
+        i += 1;
+    }
+    let root = if nd::bool() { Node::Seq(0, 2) } else { Node::Map(0, 2) };
+    let o = ValuePointerRef::Origin; let l = o.push_index(1); let p = Path::ROOT.idx(1);
+    let mut ex = Expect::EMPTY;
+    let want = jv_spec(root, p, &mut ex);
+    let r = <serde_json::Value as Deserr<Rec>>::deserialize_from_value::<KV>(to_value(root), l);
+    match r {
+        Ok(v) => { oblige!(ex.log.n == 0, "C01,C02:ok_only_if_the_payload_has_no_fault"); oblige!(Some(&v) == want.as_ref(), "C13:deserr_impl_gives_back_the_same_document"); oblige!(rec::calls() == 0, "C01:ok_only_if_nothing_reported"); }
+        Err(e) => {
+            oblige!(ex.log.n > 0, "C02,C13:fails_only_if_the_payload_has_a_fault");
+            oblige!(e.same(&rec::global()), "C01:returned_error_is_built_from_every_call");
+            oblige!(agree_until_stop(&e, &ex.log), "C02,C03,C04:events_up_to_first_stop_equal_keep_going_run");
+            oblige!(!no_stop(&e) || e.n == ex.log.n, "C01,C02:keep_going_run_is_complete");
+            oblige!(stop_then_handover(&e), "C03:stop_ends_work");
+            oblige!(all_under(&e, &p), "C04:every_event_under_the_given_location");
+        }
+    }
+}
+#[cfg(kani)]
+pub fn cont_jvalue() {}
+
 pub fn registry() -> Vec<(&'static str, crate::Body)> {
     vec![("cont_vec", cont_vec as crate::Body), ("cont_array2", cont_array2), ("cont_tuple2", cont_tuple2), ("cont_tuple3", cont_tuple3),
-         ("cont_option_box", cont_option_box), ("cont_sets", cont_sets), ("cont_maps", cont_maps), ("order_maps_3", order_maps_3)]
+         ("cont_option_box", cont_option_box), ("cont_sets", cont_sets), ("cont_maps", cont_maps), ("order_maps_3", order_maps_3), ("cont_cs", cont_cs), ("cont_jvalue", cont_jvalue)]
 }
